@@ -186,7 +186,13 @@ func c15Build(prog *vfFRRProgram, order []int, adShuffle *vfRand, hostile *vfRan
 				cm, _ := community.New(fmt.Sprintf("650%02d:%d", x%90, x))
 				bad.Communities = append(bad.Communities, cm)
 			}
-			try := append(append([]*bgp.Advertisement(nil), advs[:1]...), &bad)
+			extra := *advs[0]
+			_, n, _ := net.ParseCIDR("203.0.113.0/24")
+			if extra.Prefix.IP.To4() == nil {
+				_, n, _ = net.ParseCIDR("2001:db8:113::/64")
+			}
+			extra.Prefix = n
+			try := []*bgp.Advertisement{&extra, &bad}
 			if err := created[j].Set(try...); err == nil {
 				out.hostileAccepted = true
 			} else {
@@ -833,7 +839,7 @@ func (k *c15Checker) crossCheck(kept []int) {
 		}
 		p := c15Params(s)
 		p.PasswordRef = corev1.SecretReference{} // FRR mode is handed the resolved password only
-		sess = append(sess, frrmode.VerifSession{Params: p, Advs: advs})
+		sess = append(sess, frrmode.VerifSession{Params: p, Advs: advs, Resubmit: -1})
 	}
 	text, stage, err := frrmode.VerifRender("verifhost", c15BFD(prog.BFDProfiles), sess)
 	if err != nil {
